@@ -27,7 +27,7 @@ ASSUMPTIONS = [
     "simulated schedulers hold a job until its dependency condition is met by the documented semantics (afterok / hold_jid / done())",
     "abstract execution: a job that ends successfully has created all its declared outputs, stamped not older than its inputs",
     "files dated in the future are not generated here (C16 covers the carve-out)",
-    "local backend: real worker pool in a thread with real sh children (thorough tier and a small quick sample)",
+    "local backend: a real `gwf workers` pool in a sub-process with real sh children that create their outputs (4 cases in the quick tier, 64 in the thorough tier): all completed, second run a no-op, deleting one output re-runs exactly its producer and everything downstream (decided from the tasks' own start journal)",
 ]
 BUDGET = {
     "quick": {"examples": 150, "wall_s": 100, "shards": 4},
@@ -56,7 +56,30 @@ def strategy(tier):
     return _case(tier)
 
 
+def _local_extra():
+    from vlib import realpool
+
+    return [{"name": "local_real", "strategy": lambda tier: realpool.converge_case(5 if tier == "quick" else 8),
+             "examples": {"quick": 4, "thorough": 64}, "wall_s": 240}]
+
+
+EXTRA_STRATEGIES = _local_extra()
+CASE_TIMEOUT_S = 200
+
+
+def run_local(case):
+    """Local backend, real worker pool: after a fully successful run everything is completed, a second run is a
+    no-op, and deleting one output re-runs exactly its producer and everything downstream."""
+    from vlib import realpool
+
+    viols, labels, info = realpool.run_real(case)
+    mine = [Violation(dict(sig, backend="local"), msg) for p, sig, msg in viols if p == "C06"]
+    return CaseResult(mine, "perturb-delete" in labels, sorted(set(labels) | {"backend-local", "real-processes"}))
+
+
 def run_case(case):
+    if case.get("kind") == "real":
+        return run_local(case)
     desc = case["desc"]
     flavour = case["backend"]
     cfg = {}
